@@ -12,9 +12,9 @@ package main
 //       an upstream "tls|https|quic://srv.test" with dial_addr at a harness server presenting the
 //       `peer` certificate (swc: the server demands a client certificate signed by CA 1); a query is
 //       sent through a plain TCP listener of the router -> ok (answered by the upstream) | fail | refused
-//   side=li proto=<dot|doh|doq> peer=<valid|...|absent> swc=0 <options>
+//   side=li proto=<dot|doh|doq> peer=<valid|...|absent|plain> swc=0 <options>
 //       a tls|https|quic listener of the router with the options; a harness client presenting the
-//       `peer` client certificate sends one query -> ok (any DNS response) | fail | refused (start-up error)
+//       `peer` client certificate (absent: none; plain: no TLS at all) sends one query -> ok (any DNS response) | fail | refused (start-up error)
 
 import (
 	"context"
@@ -48,9 +48,9 @@ import (
 	"github.com/quic-go/quic-go"
 )
 
-func nullLogger() *log.Logger { return log.New(io.Discard, "", 0) }
+func c17nullLogger() *log.Logger { return log.New(io.Discard, "", 0) }
 
-func base64url(s string) ([]byte, error) { return base64.RawURLEncoding.DecodeString(s) }
+func c17base64url(s string) ([]byte, error) { return base64.RawURLEncoding.DecodeString(s) }
 
 type c17pkiT struct {
 	once  sync.Once
@@ -354,7 +354,7 @@ func c17hsUpstream(m map[string]string) string {
 		if err != nil {
 			panic(err)
 		}
-		hs := &http.Server{Handler: c17dohHandler{}, TLSConfig: srvCfg, ErrorLog: nullLogger()}
+		hs := &http.Server{Handler: c17dohHandler{}, TLSConfig: srvCfg, ErrorLog: c17nullLogger()}
 		go hs.ServeTLS(l, "", "")
 		defer hs.Close()
 		addr, dialAddr = "https://"+c17srvName+"/dns-query", l.Addr().String()
@@ -420,7 +420,14 @@ func c17hsListener(m map[string]string) string {
 				return "unreachable"
 			}
 			defer c.Close()
-			c.SetDeadline(time.Now().Add(3 * time.Second))
+			c.SetDeadline(time.Now().Add(5 * time.Second))
+			if m["peer"] == "plain" { // plaintext DNS over TCP to the TLS listener
+				c.SetDeadline(time.Now().Add(time.Second))
+				if got, _ := c17streamQuery(c, name); got {
+					return "ok"
+				}
+				return "fail"
+			}
 			tc := tls.Client(c, cliCfg)
 			if err := tc.Handshake(); err != nil {
 				return "fail"
@@ -429,6 +436,10 @@ func c17hsListener(m map[string]string) string {
 				return "ok"
 			}
 			return "fail"
+		}
+		scheme := "https"
+		if m["peer"] == "plain" { // plaintext HTTP to the https listener
+			scheme = "http"
 		}
 		cliCfg.NextProtos = []string{"h2"}
 		tr := &http.Transport{
@@ -442,9 +453,9 @@ func c17hsListener(m map[string]string) string {
 		q := new(dns.Msg)
 		q.SetQuestion(name, dns.TypeA)
 		qb, _ := q.Pack()
-		ctx, cancel := context.WithTimeout(context.Background(), 3*time.Second)
+		ctx, cancel := context.WithTimeout(context.Background(), 5*time.Second)
 		defer cancel()
-		req, _ := http.NewRequestWithContext(ctx, "GET", "https://"+c17srvName+"/dns-query?dns="+base64.RawURLEncoding.EncodeToString(qb), nil)
+		req, _ := http.NewRequestWithContext(ctx, "GET", scheme+"://"+c17srvName+"/dns-query?dns="+base64.RawURLEncoding.EncodeToString(qb), nil)
 		req.Header.Set("Accept", "application/dns-message")
 		resp, err := tr.RoundTrip(req)
 		if err != nil {
@@ -470,7 +481,7 @@ func c17hsListener(m map[string]string) string {
 			}
 			defer v.Close()
 			cliCfg.NextProtos = []string{"doq"}
-			ctx, cancel := context.WithTimeout(context.Background(), 3*time.Second)
+			ctx, cancel := context.WithTimeout(context.Background(), 5*time.Second)
 			defer cancel()
 			c, err := quic.DialAddr(ctx, listen, cliCfg, &quic.Config{})
 			if err != nil {
@@ -481,7 +492,7 @@ func c17hsListener(m map[string]string) string {
 			if err != nil {
 				return "fail"
 			}
-			s.SetDeadline(time.Now().Add(3 * time.Second))
+			s.SetDeadline(time.Now().Add(5 * time.Second))
 			q := new(dns.Msg)
 			q.SetQuestion(name, dns.TypeA)
 			qb, _ := q.Pack()
@@ -508,10 +519,17 @@ func c17hsListener(m map[string]string) string {
 
 func c17hsRun(cs string) string {
 	m := kv(cs)
+	f := c17hsListener
 	if m["side"] == "up" {
-		return c17hsUpstream(m)
+		f = c17hsUpstream
 	}
-	return c17hsListener(m)
+	// a rejection is immediate; a "fail" that took long smells of a starved machine: once more
+	t0 := time.Now()
+	res := f(m)
+	if res != "ok" && res != "refused" && time.Since(t0) > 1500*time.Millisecond {
+		res = f(m)
+	}
+	return res
 }
 
 func c17hsGen(r *rand.Rand, thorough bool, emit func(c, cat string)) {
@@ -522,7 +540,7 @@ func c17hsGen(r *rand.Rand, thorough bool, emit func(c, cat string)) {
 	}
 	protos := []string{"dot", "doh", "doq"}
 	upPeers := []string{"valid", "wrongname", "unknownca", "expired", "selfsigned"}
-	liPeers := []string{"valid", "wrongname", "unknownca", "expired", "selfsigned", "absent"}
+	liPeers := []string{"valid", "wrongname", "unknownca", "expired", "selfsigned", "absent", "plain"}
 	// upstream side
 	var upOpts []opt
 	for _, ca := range []string{"-", "1", "2"} {
@@ -561,7 +579,10 @@ func c17hsGen(r *rand.Rand, thorough bool, emit func(c, cat string)) {
 	for pi, proto := range protos {
 		for i, peer := range liPeers {
 			for j, o := range liOpts {
-				if !thorough && (i+j+pi)%3 != 0 && !(o.vcc == "1" && o.ca == "1" && (peer == "absent" || peer == "valid")) {
+				if peer == "plain" && proto == "doq" {
+					continue // there is no plaintext QUIC
+				}
+				if !thorough && (i+j+pi)%3 != 0 && !(o.vcc == "1" && o.ca == "1" && (peer == "absent" || peer == "valid" || peer == "plain")) {
 					continue
 				}
 				emit(line("li", proto, peer, "0", o), "li-"+proto+"-"+peer+"-vcc"+o.vcc)
